@@ -951,3 +951,4 @@ LEVEL_NOTE = ("Trusted: Lean kernel, axioms <= {propext, Classical.choice, Quot.
               "strings are character lists with Python's strip / split / endswith re-implemented in the model (names containing separator "
               "characters are covered by the tie only; the path theorems assume a non-empty separator that shares no character with a "
               "name). The absolute-path branch of find_relative_paths is out of scope (DESIGN section 5) and never generated.")
+RULE = RULE + ' Fifth session: a corpus tree of 70 levels with repeated leaf names below three siblings at the bottom; theorems find_full_path_iff_multi / find_full_path_path_name_multi / join_split_multi (separators of any length).'
